@@ -405,7 +405,32 @@ func (g *Gen) PriorDest(listed []listedSrc, allowObstacles bool, extras int) fst
 			}
 			continue
 		}
-		switch g.R.Intn(14) {
+		switch g.R.Intn(16) {
+		case 14: // same size, different content, mtime newer or older than the source's
+			if e.Content != nil {
+				c := *e.Content
+				c.Seed ^= 0x3c3c
+				if c.Class == "zeros" {
+					c.Class = "random"
+				}
+				d.Content = &c
+			}
+			d.Mtime = e.Mtime + []int64{1, -1, 3600, -3600, 86400 * 400, -86400 * 400}[g.R.Intn(6)]
+		case 15: // identical or not, in the neighbouring second but less than a second away
+			d.Content = e.Content
+			if g.R.Bool() {
+				d.Content = g.Edited(e.Content)
+			}
+			if g.R.Bool() {
+				d.Mtime, d.MtimeNs = e.Mtime-1, e.MtimeNs+1+g.R.Int63n(999_999_998-e.MtimeNs%999_999_998)
+				if d.MtimeNs > 999_999_999 {
+					d.MtimeNs = 999_999_999
+				}
+			} else if e.MtimeNs > 1 {
+				d.Mtime, d.MtimeNs = e.Mtime+1, g.R.Int63n(e.MtimeNs)
+			} else {
+				d.Mtime, d.MtimeNs = e.Mtime-1, 999_999_999
+			}
 		case 0, 1, 2: // absent
 			continue
 		case 3: // identical, same mtime
